@@ -352,6 +352,9 @@ func (w *World) exec(l Line) (res string) {
 		}
 	}
 	exp := uint32(l.u64("exp", 0))
+	if r, ok := w.lifeExec(l); ok {
+		return r
+	}
 	switch l.Op {
 	case "clock":
 		w.physClk.Store(l.u64("t", 0))
